@@ -63,7 +63,7 @@ fn subrun(exe: &Path, id: &str, ctx: &Ctx, envs: &[(&str, String)], tag: &str) -
     let _ = std::os::unix::fs::symlink(real.join("target/cli"), root.join("target/cli"));
     let _ = std::os::unix::fs::symlink(real.join("tools"), root.join("tools"));
     let mut cmd = Command::new(exe);
-    cmd.args(["run", id, "quick"]).env("VERIF_ROOT", &root).env("VERIF_SEED", (ctx.seed + 1000).to_string()).env("VERIF_NO_POST", "1");
+    cmd.args(["run", id, "quick"]).env_remove("VERIF_EVIDENCE_DIR").env("VERIF_ROOT", &root).env("VERIF_SEED", (ctx.seed + 1000).to_string()).env("VERIF_NO_POST", "1");
     for (k, v) in envs {
         cmd.env(k, v);
     }
